@@ -246,3 +246,7 @@ func (c *Ctx) trail(w []ssa.Instruction) string {
 	}
 	return strings.Join(parts, " -> ")
 }
+
+func sortFuncs(fs []*ssa.Function) {
+	sort.Slice(fs, func(i, j int) bool { return an.FuncKey(fs[i]) < an.FuncKey(fs[j]) })
+}
